@@ -135,7 +135,7 @@ func chain(prefix string, from, to int) []Event {
 	return r
 }
 
-var readAPIs = []string{"best", "justified", "finalized", "inmain", "pool", "validators"}
+var readAPIs = []string{"best", "justified", "finalized", "inmain", "pool", "have", "validators"}
 
 func randReads(r *Rng, n int, blocks []string) []Event {
 	var ev []Event
@@ -349,9 +349,9 @@ func genPoolDirected(r *Rng, id int) *Scenario {
 	sc.Txs = []TxSpec{{In: []string{"R5"}, NOut: 2}, {In: []string{"X0.0"}, NOut: 1}, {In: []string{"R9"}, NOut: 1}, {In: []string{"X0.1", "X2.0"}, NOut: 1}, {In: []string{"R13"}, NOut: 2}}
 	sc.BlockTxs = map[string][]int{"A18": {0}, "A19": {2}, "B18": {4}}
 	var reads []Event
-	for i := 0; i < 16; i++ {
-		api := []string{"pool", "pool", "best", "justified", "inmain"}[r.Intn(5)]
-		reads = append(reads, read(api, "T16"))
+	for i := 0; i < 40; i++ { // spread over the time the submitters need
+		api := []string{"pool", "pool", "pool", "have", "best", "justified", "inmain"}[r.Intn(7)]
+		reads = append(reads, read(api, "T16"), Event{K: "sleep", Ms: 1 + r.Intn(3)})
 	}
 	t1 := []Event{{K: "tx", Tx: 1}, {K: "tx", Tx: 0}, {K: "tx", Tx: 3}, {K: "tx", Tx: 2}, {K: "tx", Tx: 0}}
 	t2 := []Event{{K: "tx", Tx: 4}, {K: "tx", Tx: 2}, {K: "tx", Tx: 3}, {K: "tx", Tx: 1}}
@@ -689,6 +689,8 @@ func runC37(c *Ctx) error {
 		s.SampleMs = 0
 		raceScs = append(raceScs, s)
 		id++
+	}
+	for i := 0; i < c.N(3, 10); i++ {
 		m := genMixed(c.Rng, id)
 		m.SampleMs = 0
 		raceScs = append(raceScs, m)
